@@ -36,6 +36,12 @@ Meaning of the additional Rust constructs, given ONCE here:
   `layer.into_inner()` on a validated decryption layer returns the `Take` it was built on (the layer translation shows
   this for the real structures: `Gen.ZipCryptoReaderValid.into_inner`, `Gen.AesReaderValid.into_inner` return the
   reader field).
+* a method of a tuple structure `S<R>(R)` wrapping its reader (`ZipStreamReader`): the device of the monad is `self.0`;
+  its `ZipResult<T>` is the outcome of the `M`-computation (`?` on a call is a bind, as in READ mode); `x?` on a
+  `Result` VALUE (a visitor callback, `file.drain_stream()`) returns the error through `M.throw` AFTER the handles in
+  scope have been dropped; `while let P = e { body }` is `loop { match e { P => body, _ => break } }`;
+  `res.map(Newtype)` is the identity on the translation (a `struct N(T)` is its content), `res.map(Some)` wraps;
+  an untyped integer literal (also through a `let`) is typed by the callee it is passed to.
 * a local whose type has a translated `Drop` impl is dropped (`Gen.T.drop`) at every exit of its scope: the end of the
   block, and the failure branch of every `?` inside the scope (before the error is returned).
 -/
@@ -55,6 +61,14 @@ def BzDecoder.into_inner {R : Type} (r : BzDecoder R) : R := r.inner
 def ZstdDecoder.finish {R : Type} (r : ZstdDecoder R) : R := r.inner
 /-- `io::BufReader::into_inner` -/
 def BufReader.into_inner {R : Type} (r : BufReader R) : R := r.inner
+
+/-- A `V: ZipStreamVisitor` parameter: the two callbacks as functions of the visitor's state.  `visit_file(&mut self,
+&mut file)` may read from the handle (which moves the device) and changes both; `visit_additional_metadata(&mut self,
+&meta)`.  Each returns its `ZipResult<()>` as a value.  A Tie theorem about a function that takes `vis` holds for
+every visitor. -/
+structure Visitor (V F Meta : Type) where
+  visit_file : V → F → M (Except ZErr Unit × V × F)
+  visit_additional_metadata : V → Meta → M (Except ZErr Unit × V)
 
 namespace H
 
